@@ -892,7 +892,7 @@ package evaluator
 
 // the arrays handed to package sort are owned by the call: sorting never touches the caller's data (C06, C07)
 //@ func evaluator.sortArrayBy
-//@   at Sort#* assert[C06 C07 C13] owned: fresh(r.items) && fresh(r.by) && len(r.items) == len(r.by)
+//@   at Stable#* assert[C06 C07 C13] owned: fresh(r.items) && fresh(r.by) && len(r.items) == len(r.by)
 //@   loop 1
 //@     invariant fresh(by) && len(by) == len(a)
 //@   loop 2
